@@ -26,7 +26,7 @@ ASSUMPTIONS = ['"on every input" is decided on a seeded generic witness batch of
 
 def bounds(tier):
     return {'quick': {'G_depth': 2, 'option_deviations': 1, 'mask_deviation_bound': 2, 'complete_lattice_cap': 96, 'K_kmax': 9},
-            'thorough': {'G_depth': 3, 'option_deviations': 1, 'mask_deviation_bound': 3, 'complete_lattice_cap': 4096,
+            'thorough': {'G_depth': 3, 'option_deviations': 1, 'mask_deviation_bound': 2, 'complete_lattice_cap': 1024,
                          'K_kmax': 9}}[tier]
 
 
@@ -39,8 +39,10 @@ def cases(tier, seed):
     depth = 2 if tier == 'quick' else 3
     base = G.gen_base(depth)
     progs = list(base)
-    for p in G.gen_base(1 if tier == 'quick' else 2):
+    for p in G.gen_base(1):
         progs += G.option_deviations(p)
+    if tier == 'thorough':
+        progs += [q for p in G.gen_base(2) if len(p['stages']) == 2 and p['head']['kind'] == 'flatlin' for q in G.option_deviations(p)]
     progs += G.gen_special()
     for p in progs:
         if G.structure_flags(p):
